@@ -226,7 +226,7 @@ class SimWorld:
         # scheduler (set by simcore.sched.Scheduler)
         self.sched = None
         # clock
-        self.clock_ms = 1_000_000_000  # ms since a small epoch
+        self.clock_ms = 1_000_000_000_000  # ms; 2001-09-09, late enough for zip timestamps, small enough for exact float mtimes
         self._back_at = None
         if self.clock_policy == "back":
             self._back_at = self.rng_clock.randrange(5, 60)
